@@ -14,6 +14,7 @@ F_PID = "C05-proposeid-reuse"
 F_ACKERR = "C05-ack-despite-apply-error"
 F_FORCED = "C05-forced-truncation-strands-member"
 F_STALE = "C05-stale-tolerance-timer-after-leadership-loss"
+F_LAG = "C05-master-elected-before-catch-up"
 
 
 # ------------------------------------------------------------------ rendering harness cases as Coq terms
@@ -107,6 +108,11 @@ def case_coq(c):
         sl = "; ".join("(%s, %s, %s, %s)" % (Nn(q["i"]), "None" if q["file"] < 0 else "(Some %d)" % q["file"], vlib.coq_z(q["off"]),
                                              "true" if q["termOk"] else "false") for q in c["slots"])
         return "CSend %s %s %s %s [%s] [%s]" % (Nn(c["fileSize"]), Nn(c["first"]), Nn(c["last"]), Nn(c["snap"]), pr, sl)
+    if k == "readsel":
+        return "CReadSel %s %s [%s] %s %s" % ("true" if c["health"] else "false", nat(c["master"]),
+                                              "; ".join("true" if x else "false" for x in c["online"]), nlist(c["shardPts"]), nlist(c.get("sel")))
+    if k == "group" and c["forced"] == "lagmaster":
+        return "CGroupL %s" % ("true" if c["missing"] > 0 else "false")
     if k == "group" and c["forced"] in ("second", "stale"):
         return "CGroupT %s %s" % ("true" if c["forced"] == "stale" else "false", "true" if c["missing"] > 0 else "false")
     if k == "group":
@@ -157,6 +163,14 @@ def stale_signature(c):
                 fires.add(i)
             armed = None
     return all(b in fires for b in c["bad"])
+
+
+def lag_signature(c):
+    """finding C05-master-elected-before-catch-up: the master's store is down (one store down), electRgMaster + GetAliveShards map
+    reads to the member that rejoined a moment ago, and that member's applied index is behind the applied index of the
+    caught-up live member at that moment"""
+    return (c["kind"] == "group" and c["forced"] == "lagmaster" and c.get("target") == c["victim"]
+            and c["victimApplied"] < c["groupCommit"])
 
 
 def open_finding(ck, fid):
@@ -241,7 +255,7 @@ def main(ck):
     else:
         # the real 3-node group scenarios run as separate processes next to the case stream, the cluster in a thread
         gprocs = [subprocess.Popen([binp, "group", "30100", f], stdout=subprocess.PIPE, stderr=subprocess.DEVNULL, text=True,
-                                   cwd=ck.work, env=env) for f in ("time", "size", "none", "lag", "second", "stale")]
+                                   cwd=ck.work, env=env) for f in ("time", "size", "none", "lag", "second", "stale", "lagmaster")]
         cth = threading.Thread(target=cluster, args=(ck,))
         cth.start()
         rc, out = ck.run([binp, "cases", str(n)], timeout=3000)
@@ -302,10 +316,14 @@ def main(ck):
     ck.log("model evaluation done")
     # ---- verdicts
     kinds = {}
-    variants = {"replay": set(), "ack": set(), "ackerr": set(), "group": set(), "trunc": set(), "groupT": set()}
+    variants = {"replay": set(), "ack": set(), "ackerr": set(), "group": set(), "trunc": set(), "groupT": set(), "groupL": set()}
 
     def vkey(c):
-        return "groupT" if c["kind"] == "group" and c["forced"] in ("second", "stale") else c["kind"]
+        if c["kind"] == "group" and c["forced"] in ("second", "stale"):
+            return "groupT"
+        if c["kind"] == "group" and c["forced"] == "lagmaster":
+            return "groupL"
+        return c["kind"]
 
     mism = []
     for i, (c, code) in enumerate(zip(cases, codes)):
@@ -342,6 +360,8 @@ def main(ck):
                 fid = F_FORCED
             elif c["kind"] in ("group", "trunc") and stale_signature(c):
                 fid = F_STALE
+            elif c["kind"] == "group" and lag_signature(c):
+                fid = F_LAG
             oracle_fail.append((i, what, fid))
     reported = 0
     for i, what, fid in oracle_fail:
@@ -351,6 +371,9 @@ def main(ck):
                           "raft snapshot without shard data and lacks acknowledged points",
                 F_TRUNC: "restart replays nothing after a ClearEntryLog beyond the member's own snapshot index; committed entries "
                          "not yet applied are lost on that replica",
+                F_LAG: "after the store of the master partition died, electRgMaster makes the first online slave peer the master and "
+                       "reads are mapped to it although it rejoined a moment ago and has not caught up: with one store down "
+                       "acknowledged points are missing or stale in the answers until it has caught up",
                 F_STALE: "the tolerance timer of the truncation decision keeps running while the node is not the leader: a node that "
                          "regains the leadership during a later, short outage forces the truncation at once although the group was "
                          "healthy in between (real group: the rejoined member then lacks acknowledged points)",
@@ -383,6 +406,8 @@ def main(ck):
             return bool(c.get("clears")) or c["commit"] > c["appliedAt"]
         if k in ("conflict", "coord", "group", "send"):
             return True
+        if k == "readsel":
+            return len(c.get("sel") or []) > 0
         if k == "trunc":
             return any(r["prop"] >= 0 for r in c["rounds"]) or any(r["armed"] for r in c["rounds"])
         if k == "ack":
